@@ -228,4 +228,17 @@ Definition is_lit (n : node) : bool :=
   match kind_of n with Some k => is_lit_kind k | None => false end.
 Definition is_ident (n : node) : bool := is_kind KIdent n.
 
+(** Leaves of the expression grammar: literals, property names, [this], [super], template chunks.
+    In swc's trees their fields are scalars (no visitable children). *)
+Definition is_leaf_kind (k : kind) : bool :=
+  is_lit_kind k ||
+  match k with KIdentName | KPrivateName | KThis | KSuper | KTplElem => true | _ => false end.
+
+Definition leaf (n : node) : bool :=
+  match n with
+  | Node (K k _ _) _ => is_leaf_kind k
+  | Node (Str _) _ | Node (Bln _) _ | Node (Num _) _ | Node Nul _ => true    (* scalars *)
+  | Node Obj _ | Node Lst _ => false
+  end.
+
 Definition list_of (n : node) : list node := match n with Node Lst l => l | _ => [] end.
